@@ -141,6 +141,54 @@ def fresh_seq(ctx, name, kind="real", pylist=False, length=None):
     return a
 
 
+def fresh_table(ctx, name, kind="real", pylist=False):
+    """2-D value (ndarray, or a nested Python list of equally long rows when pylist) with symbolic extents r, c >= 0."""
+    r = ctx.fresh(name + "_rows", "int")
+    c = ctx.fresh(name + "_cols", "int")
+    ctx.assume(z3.And(r.t >= 0, c.t >= 0))
+    nm = ctx.fresh_name(name)
+    rng = {"int": z3.IntSort(), "real": z3.RealSort()}[kind]
+    f = z3.Function(nm, z3.IntSort(), z3.IntSort(), rng)
+    a = SymArr((r, c), lambda i, j, _f=f: Sym(_f(lift(i), lift(j))), kind, pylist, name=nm)
+    if not pylist:
+        mark_nd(a)
+    return a
+
+
+def flat_size(a):
+    n = 1
+    for d in a.shape:
+        n = n * d
+    return n
+
+
+def flat_at(a, i):
+    """element i of the row-major flattening of a 0-, 1- or 2-d array (numpy C order)"""
+    i = lift(i)
+    if a.ndim == 0:
+        return a.fn()
+    if a.ndim == 1:
+        return a.fn(i)
+    if a.ndim == 2:
+        c = lift(a.shape[1])
+        return a.fn(i / c, i % c)
+    raise OutOfSubset("row-major flattening of an array with more than 2 axes")
+
+
+def nd_flatten(a):
+    """ndarray.flatten(): always a NEW 1-d array with the elements in row-major order"""
+    if a.ndim == 1:
+        return nd_copy(a)
+    if a.ndim > 2:
+        r = a.reshape(-1)
+        return nd_copy(mark_nd(r, like=a))
+    g = _guarded(a, view=False)
+    src = SymArr(a.shape, g, a.kind, False)
+    n = flat_size(a)
+    n = LenSym(lift(n)) if contains_sym(n) else n
+    return nd((n,), lambda i: flat_at(src, i), a.kind, like=a)
+
+
 def nd_copy(a, kind=None, conv=None):
     """Fresh array with the current contents of `a` (np.copy / astype / flatten of a 1-D array)."""
     f = _guarded(a, view=False)
@@ -459,12 +507,7 @@ def install(reg):
                 return nd_copy(a)
             return astype
         if name == "flatten":
-            def flatten(*x, **k):
-                if a.ndim == 1:
-                    return nd_copy(a)
-                r = a.reshape(-1)
-                return nd_copy(mark_nd(r, like=a))
-            return flatten
+            return lambda *x, **k: nd_flatten(a)
         if name == "real":
             g = _guarded(a, view=True)
             if is_complex(a) is False:
